@@ -186,6 +186,12 @@ def suite_adj(ctx):
                     else (16, 8, 8)
                 w = World(emg3d, rng, case, mapping, shape=shape,
                           gridding=gridding, relative=bool(k % 2))
+                if k % 2:
+                    # data-sized w below: weak adjoint sources, on which
+                    # SciPy's bicgstab breaks down (absolute thresholds)
+                    from harness.gradworld import SOLVER
+                    w.opts['solver_opts'] = dict(SOLVER, sslsolver=False,
+                                                 cycle='F', maxit=300)
                 file_based = (k % 2 == 0)
                 kw = {}
                 if file_based:
@@ -204,6 +210,9 @@ def suite_adj(ctx):
                     wv = rng.standard_normal(jv.shape) + \
                         1j*rng.standard_normal(jv.shape)
                     wv[~fin] = 0
+                    if k % 2:
+                        # data-sized vectors (J^T is linear in w)
+                        wv = wv*1e-14
                     jt = np.array(sim.jtvec(wv), copy=True)
                 if not er.ok:
                     skipped += 1
